@@ -5,6 +5,8 @@ import (
 	"fmt"
 	"strings"
 
+	"github.com/trustbloc/sidetree-core-go/pkg/api/operation"
+	"github.com/trustbloc/sidetree-core-go/pkg/api/txn"
 	"github.com/trustbloc/sidetree-core-go/pkg/commitment"
 	"github.com/trustbloc/sidetree-core-go/pkg/dochandler"
 	"github.com/trustbloc/sidetree-core-go/pkg/hashing"
@@ -397,10 +399,46 @@ func checkC08(c *hx.Ctx) {
 				c.Count("anchored_reveal_value_not_binding_key")
 			}
 		}
+		// ---------- (6) one suffix per suffix data, whichever component computes it: the intake parser and the reader of
+		// anchored batch files must name the same DID (protocol enabling both algorithms, in both orders)
+		if i%8 == 0 {
+			for _, algs := range [][]uint{{ref.SHA512, ref.SHA256}, {ref.SHA256, ref.SHA512}} {
+				pm := hx.BaseProtocol()
+				pm.MultihashAlgorithms = algs
+				pm.MaxDeltaSize, pm.MaxOperationSize = 9000, 20000
+				pm.MaxChunkFileSize, pm.MaxCoreIndexFileSize, pm.MaxProofFileSize, pm.MaxProvisionalIndexFileSize = 2000000, 2000001, 2000002, 2000003
+				cas := hx.NewMemCAS()
+				vm := hx.NewVersion(pm, hx.VersionOpts{CAS: cas})
+				c.Eval()
+				want := ref.HashModel(uint64(algs[0]), tree["suffixData"])
+				op, err := vm.Parser.Parse(hx.Namespace, cr.Req)
+				if err != nil {
+					c.Violation(fmt.Sprintf("C08 valid create refused by a protocol enabling %v: %v", algs, err), map[string]interface{}{"request": string(cr.Req)})
+					return
+				}
+				info, err := vm.Handler.PrepareTxnFiles([]*operation.QueuedOperation{{Type: operation.TypeCreate, OperationRequest: cr.Req, UniqueSuffix: op.UniqueSuffix, Namespace: hx.Namespace}})
+				if err != nil {
+					c.Violation("C08 batch files cannot be written for a valid create: "+err.Error(), nil)
+					return
+				}
+				got, err := vm.Provider.GetTxnOperations(&txn.SidetreeTxn{AnchorString: info.AnchorString, Namespace: hx.Namespace, TransactionTime: 5, ProtocolVersion: pm.GenesisTime})
+				if err != nil || len(got) != 1 || got[0].UniqueSuffix != op.UniqueSuffix || op.UniqueSuffix != want {
+					gs := ""
+					if len(got) == 1 {
+						gs = got[0].UniqueSuffix
+					}
+					c.Violation(fmt.Sprintf("C08 the same suffix data names different DIDs: intake parser %s, reader of the anchored batch %s (err=%v), hash of the suffix data under the protocol's first algorithm %s (algorithms %v, controller hashes with %#x)", op.UniqueSuffix, gs, err, want, algs, code),
+						map[string]interface{}{"request": string(cr.Req), "algorithms": algs})
+					return
+				}
+				c.Count("suffix_agreement_between_parser_and_batch_reader")
+			}
+		}
 		if i < 2 {
 			c.Sample(2, map[string]interface{}{"long_form_did": didPrefix + seg, "key_type": types[0], "multihash": code})
 		}
 	})
+	c.Floor("suffix_agreement_between_parser_and_batch_reader", 20)
 	c.Floor("anchored_create_with_substituted_delta", 20)
 	c.Floor("longform_valid_resolved", 20)
 	c.Floor("longform_with_label_resolved", 20)
